@@ -1,5 +1,6 @@
 import GlyModel.Generated.Tables
 import GlyModel.Smiles.Graph
+import GlyModel.Smiles.Formula
 /-
   C08 — The monosaccharide library is stereochemically coherent. (Property theorems only.)
   Table theorems are decided by the kernel over the *complete* regenerated tables.
@@ -142,5 +143,73 @@ theorem C08_tables_wellformed :
     pyranoseTable.all (·.lactole == 6) = true ∧ furanoseTable.all (·.lactole == 5) = true ∧
     openTable.all (fun r => r.config == 0 && (r.key == "INS".toList || (r.lactole == 1 && !r.smiles.any Char.isDigit))) = true := by
   decide +kernel
+
+/-! ### ring size and elemental composition (graph level, all rows) -/
+
+open Gly.Smi in
+def ringSizeOk (t : List MonoRow) (except_ : List String) : Bool :=
+  t.all (fun r => except_.contains (String.ofList r.key) ||
+    (match (semOfChars r.smiles).bind ringInfo with | some (n, _) => n == r.lactole | none => false))
+
+open Gly.Smi in
+/-- **Each entry has the ring size of its class**: the ring closed by the row's ring-closure bond has 6 members in the pyranose
+    table and 5 in the furanose table (= the row's `lactole` field) – for every row, except apiose, which the pyranose table lists
+    with its (only possible) furanose ring. -/
+theorem C08_ring_size :
+    ringSizeOk pyranoseTable ["API", "A_API", "B_API"] = true ∧ ringSizeOk furanoseTable [] = true ∧
+    openTable.all (fun r => r.key == "INS".toList || ((semOfChars r.smiles).bind ringInfo).isNone) = true := by
+  decide +kernel
+
+def codeOf (k : List Char) : List Char :=
+  match k with
+  | 'A' :: '_' :: r => r
+  | 'B' :: '_' :: r => r
+  | r => r
+
+/-- hand-written Spec: (C, H, N, O) of the sugar classes -/
+def classFormula : List (Nat × Nat × Nat × Nat × List String) := [
+  (6, 12, 0, 6, ["GLC", "MAN", "GAL", "GUL", "ALT", "ALL", "TAL", "IDO", "FRU", "TAG", "SOR", "PSI", "HEX"]),
+  (6, 12, 0, 5, ["QUI", "RHA", "FUC", "6DALT", "6DTAL", "6DGUL"]),
+  (6, 12, 0, 4, ["OLI", "TYV", "ABE", "PAR", "DIG", "COL", "ASC", "PAU"]),
+  (5, 10, 0, 5, ["ARA", "LYX", "XYL", "RIB", "RUL", "XLU", "API", "PEN"]),
+  (4, 8, 0, 4, ["ERY", "THRE"]),
+  (9, 16, 0, 9, ["KDN"]), (9, 17, 1, 8, ["NEU"]), (8, 14, 0, 8, ["KDO"]), (9, 18, 2, 6, ["PSE", "LEG", "ACI"]),
+  (6, 14, 2, 3, ["BAC"]), (9, 17, 1, 7, ["MUR"]), (7, 14, 0, 7, ["HEP", "SED"]), (8, 16, 0, 8, ["OCT"])]
+
+open Gly.Smi in
+def formulaOk (t : List MonoRow) : Bool :=
+  t.all (fun r =>
+    match classFormula.find? (fun c => c.2.2.2.2.contains (String.ofList (codeOf r.key))) with
+    | none => true
+    | some (c, h, n, o, _) => (semOfChars r.smiles).map formula == some (c, h, n, o))
+
+open Gly.Smi in
+/-- **Each entry has the elemental composition of its class** (hand-written class table: hexose C6H12O6, 6-deoxyhexose C6H12O5,
+    3,6-dideoxyhexose C6H12O4, pentose C5H10O5, tetrose, Kdn, Neu, Kdo, Pse/Leg/Aci, Bac, Mur, heptose, octose) – every a / b /
+    plain row of both ring tables, hydrogens by the organic-subset valence rules. -/
+theorem C08_class_formula : formulaOk pyranoseTable = true ∧ formulaOk furanoseTable = true := by decide +kernel
+
+open Gly.Smi in
+def fOf (t : List MonoRow) (key : List Char) : Option (Nat × Nat × Nat × Nat) :=
+  (t.find? (fun r => r.key == key)).bind (fun r => (semOfChars r.smiles).map formula)
+
+open Gly.Smi in
+/-- every a / b row has the formula of the plain row of its table; the plain furanose row that of the plain pyranose row (if both
+    exist); the alditol row (if any) that plus H2 -/
+def sameFormulaAcrossForms : Bool :=
+  (pyranoseTable ++ furanoseTable).all (fun r =>
+    let t := if r.lactole == 6 || pyranoseTable.any (fun x => x.key == r.key && x.smiles == r.smiles) then pyranoseTable else furanoseTable
+    if codeOf r.key != r.key then (semOfChars r.smiles).map formula == fOf t (codeOf r.key) else true) &&
+  furanoseTable.all (fun r => codeOf r.key != r.key || (match fOf pyranoseTable r.key with | none => true | some f => fOf furanoseTable r.key == some f)) &&
+  openTable.all (fun o =>
+    match (pyranoseTable ++ furanoseTable).find? (fun r => r.key ++ "-OL".toList == o.key) with
+    | none => true
+    | some r => (match (semOfChars r.smiles).map formula, (semOfChars o.smiles).map formula with
+        | some (c, h, n, ox), some (c', h', n', ox') => c == c' && h + 2 == h' && n == n' && ox == ox'
+        | _, _ => false))
+
+/-- **The pyranose, furanose, a, b and plain entries of a code are one composition, and its alditol entry is that plus H2** –
+    for every code of the library (no class table needed). -/
+theorem C08_forms_same_formula : sameFormulaAcrossForms = true := by decide +kernel
 
 end Gly.Props.C08
